@@ -61,6 +61,36 @@ WHAT = {
  "C19-1": "path-form skip entries matched by plain suffix (`foo/bar` prunes `xfoo/bar`)",
  "C19-2": "hidden check skipped for symlinked directories",
  "C19-3": "error guard requires `de == nil`: unreadable directory pushed twice",
+ "C01-4": "extendedMatch breaks out of an OR group at a matching negated alternative (`!a | b` drops lines with a that satisfy b)",
+ "C01-5": "parseTerms splits with strings.Fields: the TAB standing in for an escaped space splits `foo\\ bar` into two terms",
+ "C01-6": "exactMatchNaive re-examines only the breaking character after a partial match (`'aab` misses aaab)",
+ "C02-4": "calculateScore folds only upper-class runes: V1 reports fewer positions than pattern characters for ǅ / Ⅷ",
+ "C02-5": "EqualMatch uses strings.EqualFold (ς≡σ, ſ≡s false matches; İ/i false non-match)",
+ "C02-6": "boundary match drops the class check of the preceding character (`'.go'` matches main.go)",
+ "C03-4": "path scheme keeps the default delimiters: word character after `, : ; |` gets bonus 9",
+ "C03-5": "V2 classifies non-ASCII characters after case folding (camelCase bonus lost / misplaced)",
+ "C03-6": "EqualMatch scores with the line length instead of the pattern length (padded lines)",
+ "C05-4": "OR-group loop: `continue` for `break` when positions are not wanted: the last matching alternative sets the score",
+ "C05-5": "streaming filter reuses one Item: cached --nth tokens of the first line used for every line",
+ "C05-6": "alloc16/alloc32 grow the slab: the V2 -> V1 hand-over point moves with the worker's history",
+ "C07-4": "leftover buffer reused after a straddling record (`leftover = slice[:0]`): earlier item overwritten (> 2 reads)",
+ "C07-5": "origText stored only when the --with-nth transformation differs: trailing blanks not printed",
+ "C07-6": "--select-1/--exit-0 short-circuit prints the empty --expect line before the --print-query line",
+ "C10-4": "AWK tokenizer tests bytes with unicode.IsSpace: splits inside Å à ą Š and at FF/VT/CR",
+ "C10-5": "acceptNth tokenizes item.text when ANSI is stripped (with --with-nth the transformed line)",
+ "C10-6": "placeholder lists trim the delimiter per token: `{1,3}` on a:b:c gives ac",
+ "C11-4": "open span tracked by pointer into a slice that grows: the 32nd, 64th ... span loses its colour",
+ "C11-5": "CSI parameter bytes by range check '0'..';': `?` sequences (ESC[?25l) no longer stripped",
+ "C11-6": "SGR table with the rule 2x clears x: 22 clears only dim, bold survives",
+ "C12-4": "placeholder regex refactored: the {n}-type alternative left outside the optional backslash (escaped \\{n} expanded)",
+ "C12-5": "tmux re-launch leaves harmless-looking arguments unquoted - including the empty one",
+ "C12-6": "--with-nth item builder advances the ordinal before the header-line check ({n} off by the header count)",
+ "C18-4": "History.append drops the last slot only when empty: a parked draft is written to the file",
+ "C18-5": "NewHistory trims with TrimSpace: an entry ending in blanks is loaded trimmed / dropped",
+ "C18-6": "history limit kept only in the History object: --history-size before --history falls back to 1000",
+ "C19-4": "trimPath applied only for a root spelled `.`: `./a` roots list `./a/...`",
+ "C19-5": "dir-only mode returns ErrSkipFiles for non-directories: symlinked directories are not descended",
+ "C19-6": "roots walked by goroutines capturing the loop variable: the last root is walked N times",
  "C20-1": "reload bumps the preview version only when a selection existed",
  "C20-2": "KillCommand kills only the shell (superseded compound preview survives, holds the pipe)",
  "C04-4": "mergedGet copies the rest of the last live list in bulk but advances its cursor by one (a probe that jumps ahead, then a read further on)",
